@@ -13,9 +13,11 @@ use debian_copyright::License;
 use std::path::Path;
 use std::str::FromStr;
 
-/// A path field is hex-encoded UTF-8, or "!" + hex of raw bytes (a path that is not valid UTF-8).
+/// A path field is hex-encoded UTF-8, or "!" + hex of raw bytes + ":" + hex of the lossy conversion
+/// (a path that is not valid UTF-8; the part after the colon is for the model only).
 fn path_of(field: &str) -> std::path::PathBuf {
     if let Some(h) = field.strip_prefix('!') {
+        let h = h.split(':').next().unwrap();
         use std::os::unix::ffi::OsStrExt;
         let bytes: Vec<u8> = (0..h.len() / 2).map(|i| u8::from_str_radix(&h[2 * i..2 * i + 2], 16).unwrap()).collect();
         std::path::PathBuf::from(std::ffi::OsStr::from_bytes(&bytes))
